@@ -95,7 +95,34 @@ def gen_corr(rng):
 def make_obj(f):
     from pgradd.ThermoChem import ThermochemGroup
     with L.quiet():
-        return ThermochemGroup(f['H'], f['S'], dict(f['cp']), f['Tref'], f['range'])
+        if not f.get('history'):
+            return ThermochemGroup(f['H'], f['S'], dict(f['cp']), f['Tref'], f['range'])
+        # the same correlation reached through the public API after the object was already formatted: it held other reference
+        # values where the final one has none, one more heat-capacity point, a wider range; each is formatted, then withdrawn
+        table = dict(f['cp'])
+        ts = sorted(table)
+        tx = None
+        if len(ts) >= 2:
+            tx = 0.5 * (float(ts[0]) + float(ts[1]))
+        wide = None if f['range'] is None else (f['range'][0] - 0.5 if f['range'][0] > 1.0 else f['range'][0], f['range'][1] + 25.0)
+        more = dict(table)
+        if tx is not None:
+            more[tx] = 1.75
+        o = ThermochemGroup(f['H'] if f['H'] is not None else 12.5, f['S'] if f['S'] is not None else -3.25, more, f['Tref'], wide)
+        for u in ({}, {'molar enthalpy': 'kJ/mol', 'molar entropy': 'J/(mol K)', 'molar heat capacity': 'J/(mol K)', 'temperature': 'K'}):
+            try:
+                o.yaml_format(u)
+            except Exception:
+                pass
+        if f['H'] is None:
+            o.del_ND_H_ref()
+        if f['S'] is None:
+            o.del_ND_S_ref()
+        if tx is not None:
+            o.del_ND_Cp(tx)
+        if wide is not None:
+            o.set_range(f['range'])
+        return o
 
 
 def pick_units(rng):
@@ -264,7 +291,8 @@ def show_fields(f):
     def r(x):
         return None if x is None else float(x).hex()
     return {'H': r(f['H']), 'S': r(f['S']), 'cp': [[r(T), r(v)] for T, v in f['cp']], 'Tref': r(f['Tref']),
-            'range': None if f['range'] is None else [r(f['range'][0]), r(f['range'][1])], 'typ': f.get('typ', 'py')}
+            'range': None if f['range'] is None else [r(f['range'][0]), r(f['range'][1])], 'typ': f.get('typ', 'py'),
+            'history': bool(f.get('history'))}
 
 
 def unshow_fields(j):
@@ -276,7 +304,8 @@ def unshow_fields(j):
         v = float.fromhex(x)
         return np.float64(v) if j.get('typ') in ('np', 'mixed') else v
     return {'H': r(j['H']), 'S': r(j['S']), 'cp': [(r(a), r(b)) for a, b in j['cp']], 'Tref': r(j['Tref']),
-            'range': None if j['range'] is None else (r(j['range'][0]), r(j['range'][1])), 'typ': j.get('typ', 'py')}
+            'range': None if j['range'] is None else (r(j['range'][0]), r(j['range'][1])), 'typ': j.get('typ', 'py'),
+            'history': bool(j.get('history'))}
 
 
 # ------------------------------------------------------------------------------------------------------------------ tie
@@ -422,6 +451,7 @@ def run(ctx):
         replay(ctx, rec)
     for i in range(ctx.n(250, 6000)):
         f = gen_corr(rng)
+        f['history'] = rng.random() < 0.3
         for k in range(2):
             check_one(ctx, f, pick_units(rng), batch, 'random')
         if ctx.time_left() < 200:
